@@ -247,7 +247,14 @@ def _direct(spec, rng, keys, hist):
             I.reach("monitor.reporting_metrics")
             ok = np.isfinite(ro) & np.isfinite(rp)
             osum, psum, mm = float(ro[ok].sum()), float(rp[ok].sum()), int(ok.sum())
-            rd = rm.model_dump()
+            try:
+                rd = rm.model_dump()
+            except ZeroDivisionError as e:
+                # n' = n(1-rho)/(1+rho) is exactly 0 when the baseline residuals are perfectly autocorrelated (rho = 1, e.g. 3 collinear residuals)
+                if float(d["n_prime"]) == 0.0:
+                    add("reporting-metrics-raise-when-n_prime-is-zero", "ReportingMetrics.model_dump() raised ZeroDivisionError: baseline n_prime = 0 (rho = %r)" % ref.get("rho"), tag=tag)
+                    continue
+                raise
             bad = []
             sc = max(abs(osum), abs(psum), 1e-12)
             if int(rd["n"]) != mm:
